@@ -31,6 +31,7 @@ type RoutesJob struct {
 	EnumVal bool   `json:"enumVal"`
 	TopEnum bool   `json:"topEnum"`
 	RespVal bool   `json:"respVal"`
+	Auth    string `json:"auth,omitempty"` // authFileFullPackageName override (the callback's signature is engine specific)
 }
 
 // Job is one run of the real pipeline over one project directory in a fresh process.
@@ -308,6 +309,9 @@ func runJob(job Job) *Result {
 			c := *cfg
 			c.RoutesConfig.Engine = definitions.RoutingEngineType(rj.Engine)
 			c.RoutesConfig.OutputPath = rj.Out
+			if rj.Auth != "" {
+				c.RoutesConfig.AuthorizationConfig.AuthFileFullPackageName = rj.Auth
+			}
 			c.RoutesConfig.SkipGenerateDateComment = true
 			c.RoutesConfig.ValidateResponsePayload = rj.RespVal
 			c.ExperimentalConfig.GenerateEnumValidator = rj.EnumVal
